@@ -224,6 +224,42 @@ fn check_crlf_any(c: &InputCase, st: &mut Stats) -> Verdict {
     compare("LF -> CRLF (arbitrary input)", &lf, &crlf, c.ext, c.conv)
 }
 
+/// recipes referenced by path, with blanks inside directory and file names: the words of each template are
+/// joined by a blank in the plain spelling and by a generated separator in the other one
+const PATH_TEMPLATES: &[&[&str]] = &[
+    &["Use @./my", "sauces/tomato", "sauce{1%kg} now."],
+    &["Make @../shared", "dir/pizza", "dough{} first."],
+    &["Add @@./sauces/green", "pesto{2%tbsp} and", "stir."],
+    &["@./a", "b/c", "d/e", "f{}"],
+    &["Top with @./sauces/white", "sauce{}(warm", "it) and @&./sauces/white", "sauce{}."],
+];
+const PATH_SEPARATORS: &[&str] = &[" ", "  ", " [- c -] ", "[- c -] ", " [-é-]", " -- c\n", "\n", "   -- é\n  ", " [-- x --] "];
+
+fn check_paths(c: &(u8, Vec<u8>, bool), st: &mut Stats) -> Verdict {
+    let t = PATH_TEMPLATES[c.0 as usize % PATH_TEMPLATES.len()];
+    let plain = format!("{}\n", t.join(" "));
+    let mut spelled = String::new();
+    let mut varied = false;
+    for (i, w) in t.iter().enumerate() {
+        if i > 0 {
+            let sep = PATH_SEPARATORS[*c.1.get(i - 1).unwrap_or(&0) as usize % PATH_SEPARATORS.len()];
+            varied |= sep != " ";
+            spelled.push_str(sep);
+        }
+        spelled.push_str(w);
+    }
+    spelled.push('\n');
+    if c.2 {
+        spelled = spelled.replace('\n', "\r\n");
+        varied = true;
+    }
+    if varied {
+        st.nontrivial(&spelled);
+    }
+    st.sample(|| json!({"before": plain, "after": spelled}));
+    compare("recipe path reference: plain spelling vs comments / blanks / wraps between the words of its names", &plain, &spelled, EXT_ALL, 1)
+}
+
 pub fn run(tier: Tier) -> i32 {
     let mut run = Run::new("C17", tier);
     run.assume("recipes are compared through their image with every run of whitespace inside step / paragraph text collapsed; diagnostics are not compared (spans move)");
@@ -267,11 +303,22 @@ pub fn run(tier: Tier) -> i32 {
             check_crlf_any,
         );
     }
+    if !run.failed() {
+        run_prop(
+            &mut run,
+            "paths",
+            "ingredients that reference another recipe by path, with several words in directory and file names: the plain spelling against one with block comments, line comments + wraps, extra blanks or CRLF between those words; equal validity and equal recipes (name, path components, quantity, note); non-trivial = some separator is not a single blank",
+            || (any::<u8>(), proptest::collection::vec(any::<u8>(), 4), proptest::bool::weighted(0.2)),
+            tier.pick(3_000, 100_000),
+            check_paths,
+        );
+    }
     run.finish()
 }
 
 pub fn replay(part: &str, j: &serde_json::Value) -> Verdict {
     match part {
+        "paths" => check_paths(&case_from(j)?, &mut Stats::default()),
         "crlf-any" | "crlf-lines" => check_crlf_any(&case_from(j)?, &mut Stats::default()),
         _ => check(&case_from(j)?, &mut Stats::default()),
     }
